@@ -26,6 +26,18 @@ RANGES = [(-5, 10, 5, False), (0, 8, 3, False), (0, 8, 3, True), (-1, 20, [1, 2,
           (0, 1, 1, False)]
 
 
+EPOCH = datetime.datetime(1999, 1, 1)
+DATE_RANGES = [(datetime.datetime(1999, 1, 1), datetime.datetime(2000, 1, 2), datetime.timedelta(days=200), False),
+               (datetime.datetime(1999, 1, 1), datetime.datetime(2000, 1, 2), datetime.timedelta(days=200), True),
+               (datetime.datetime(2000, 1, 1), datetime.datetime(2000, 1, 1, 0, 0, 3), datetime.timedelta(seconds=1), False),
+               (datetime.datetime(1999, 6, 1), datetime.datetime(2030, 1, 1), datetime.timedelta(days=4000), False)]
+
+
+def secs(dt):
+    """whole seconds since 1999-01-01 (the dates of the corpus have no fractions)"""
+    return int((dt - EPOCH).total_seconds())
+
+
 def buckets_of(start, end, gap, hardend):
     """The documented buckets of a RangeFacet: inclusive start, exclusive end, gap sequence whose last
     size repeats, last bucket clamped to end only with hardend."""
@@ -206,6 +218,27 @@ def observe(s, q, aq, rng, missing):
         obs.append({"kind": "groups", "path": "groupedby=RangeFacet(num, %s)" % (rg,), "f": "_range", "overlap": False,
                     "buckets": bs, "groups": out})
     guard("groups:range", gr)
+    # date range facets: timedelta gaps, buckets [start, end) in time
+    drg = rng.choice(DATE_RANGES)
+
+    def gdr():
+        start, end, gap, hardend = drg
+        bs = []
+        c = start
+        while c < end:
+            e = c + gap
+            if hardend:
+                e = min(e, end)
+            bs.append([c, e])
+            c = e
+        r = s.search(q, limit=2, groupedby={"d": sorting.DateRangeFacet("when", start, end, gap, hardend=hardend)})
+        out = []
+        for key, dns in r.groups("d").items():
+            kid = 0 if key is None else (bs.index(list(key)) + 1 if isinstance(key, tuple) and list(key) in bs else -1)
+            out.append([kid, [int(x) for x in dns]])
+        obs.append({"kind": "groups", "path": "groupedby=DateRangeFacet(when, %s)" % (drg,), "f": "_drange", "overlap": False,
+                    "buckets": [[secs(a), secs(b)] for a, b in bs], "groups": out})
+    guard("groups:daterange", gdr)
     aqs = [world.rand_query(rng, rng.randrange(0, 2), ops=FACET_QUERY_OPS) for _ in range(rng.choice([1, 2, 3]))]
     for overlap in (False, True):
         other = rng.choice([None, "zz"])
@@ -409,7 +442,8 @@ def check(run):
                 k = rd.stored_fields(dn)["key"]
                 d = adocs[k]
                 docs.append({"live": not rd.is_deleted(dn), "t": {f: d["t"].get(f, []) for f in ("body", "title")},
-                             "n": {"num": [NUMS[i - 1] for i in d["k"]["num"]]}, "b4": 4, "k": d["k"], "key": k})
+                             "n": {"num": [NUMS[i - 1] for i in d["k"]["num"]],
+                                   "whenv": [secs(WHENS[i - 1]) for i in d["k"]["when"]]}, "b4": 4, "k": d["k"], "key": k})
             idx = {"docs": docs}
             qs = []
             for qi in range(10 if quick else 16):
